@@ -46,7 +46,7 @@ pub fn run(ctx: &mut Ctx) {
     ctx.run_cases("known-extreme", 1, true, |ctx, _rng, idx| {
         one_case(ctx, idx, KNOWN_EXTREME.to_vec(), 4, 0.4988413339439832, true, 44100, 0.6103194783938943);
     });
-    let n = ctx.n(480, 30000);
+    let n = ctx.n(1920, 30000);
     ctx.run_cases("lsp", n, false, |ctx, rng, idx| {
         let m = if idx % 9 == 0 { *rng.pick(&[2usize, 3, 23, 24]) } else { rng.range(2, 24) };
         let stage = 1 + idx % 4;
